@@ -104,7 +104,11 @@ def run_one(name, tier="quick", in_repo=False):
         rc, out = sh(f"git apply {os.path.join(d, 'patch.diff')}", cwd=wt)
         if rc:
             sh(f"git -C /repo worktree remove --force {wt}")
-            sys.exit("patch does not apply: " + out)
+            print(f"  {name}: patch does not apply to the current tree (needs a rebase): {out.strip()[:200]}")
+            meta.setdefault("check_results", {})[tier] = {}
+            meta["applies"] = False
+            json.dump(meta, open(os.path.join(d, "meta.json"), "w"), indent=1)
+            return False
         env_prefix = f"VERIF_REPO={wt} "
     results = {}
     try:
